@@ -699,9 +699,13 @@ impl Actor {
                     break reply;
                 }
                 action => {
+                    #[cfg(feature = "verif")]
+                    let verif_tag = self.verif_tag(&action);
                     if self.on_action(action).await.is_err() {
                         warn!("failed to send reply: receiver dropped");
                     }
+                    #[cfg(feature = "verif")]
+                    self.verif_emit(verif_tag);
                 }
             }
         };
@@ -1196,5 +1200,51 @@ mod tests {
 
         sync.close(id).await?;
         Ok(())
+    }
+}
+
+#[cfg(feature = "verif")]
+impl Actor {
+    /// `"open":..,"handles":..,"sync":..,"subs":..` of a document as this actor thread sees it.
+    fn verif_state(&self, namespace: &NamespaceId) -> String {
+        match self.states.0.get(namespace) {
+            None => "{\"open\":false,\"handles\":0,\"sync\":false,\"subs\":0}".to_string(),
+            Some(s) => format!(
+                "{{\"open\":true,\"handles\":{},\"sync\":{},\"subs\":{}}}",
+                s.handles,
+                s.sync,
+                s.info.subscribers_count()
+            ),
+        }
+    }
+
+    /// Request kind, document, relevant arguments and the document's state before the request.
+    fn verif_tag(&self, action: &Action) -> Option<(NamespaceId, String)> {
+        let Action::Replica(namespace, action) = action else {
+            return None;
+        };
+        let (sync, sub) = match action {
+            ReplicaAction::Open { opts, .. } => (opts.sync, opts.subscribe.is_some()),
+            ReplicaAction::SetSync { sync, .. } => (*sync, false),
+            _ => (false, false),
+        };
+        Some((
+            *namespace,
+            format!(
+                "\"op\":\"{action}\",\"sync\":{sync},\"sub\":{sub},\"pre\":{}",
+                self.verif_state(namespace)
+            ),
+        ))
+    }
+
+    fn verif_emit(&self, tag: Option<(NamespaceId, String)>) {
+        if let Some((namespace, head)) = tag {
+            crate::verif::actor_event(format!(
+                "\"actor\":\"{:?}\",\"ns\":\"{}\",{head},\"post\":{}",
+                std::thread::current().id(),
+                namespace,
+                self.verif_state(&namespace)
+            ));
+        }
     }
 }
